@@ -212,7 +212,11 @@ ReplacesNullable == [j \in 1..(Len(NullableRes) * Len(NullRepls) * 2) |->
 ReplacesAt == << <<"replace", FALSE, <<"lnum", "==", 2>>, Re(FALSE, <<<<"a", "1">>>>, FALSE), <<CB>>>>,
                  <<"replace", TRUE, <<"lnum", "!=", 1>>, Re(FALSE, <<<<"dot", "1">>>>, TRUE), <<>>>>,
                  <<"replace", FALSE, <<"cmatch", FALSE, Re(FALSE, <<<<"b", "1">>>>, FALSE)>>, Re(FALSE, <<<<"nl", "1">>>>, FALSE), <<SP>>>>,
-                 <<"replace", FALSE, <<"lnot", <<"lnum", ">=", 2>>>>, Re(FALSE, <<<<"a", "+">>>>, FALSE), <<NL>>>> >>
+                 <<"replace", FALSE, <<"lnot", <<"lnum", ">=", 2>>>>, Re(FALSE, <<<<"a", "+">>>>, FALSE), <<NL>>>>,
+                 \* -at and -preserve-new-lines together, with a regex that could match the new-line of a line
+                 <<"replace", TRUE, <<"lnum", "!=", 1>>, Re(FALSE, <<<<"nl", "1">>>>, FALSE), <<SP>>>>,
+                 <<"replace", TRUE, <<"cmatch", FALSE, Re(FALSE, <<<<"a", "1">>>>, FALSE)>>, Re(FALSE, <<<<"a", "1">>, <<"nl", "?">>>>, FALSE), <<CB>>>>,
+                 <<"replace", TRUE, <<"lnum", ">=", 1>>, Re(FALSE, <<<<"sp", "*">>, <<"nl", "1">>>>, FALSE), <<CB>>>> >>
 Seqs == << <<"seq", <<"replace", FALSE, <<>>, Re(FALSE, <<<<"a", "1">>>>, FALSE), <<CB>>>>, <<"strip">>>>,
            <<"seq", <<"strip">>, <<"upper">>>>,
            <<"seq", <<"filter", <<"lnum", ">=", 2>>>>, <<"filter", <<"lnum", "==", 1>>>>>>,
